@@ -27,14 +27,16 @@ contract("Cluster.deserialize", kind="assumed", fresh_result=True,
                   "forall(c, Cluster, implies(c != result[0], c.g_promoted == old(c.g_promoted)))",       # no other handle changes its role
                   "ghost.loaded_complete == result[0]._config.is_complete",
                   # the persisted status invariant holds at every lock-free instant (C09) and the loaded jobs are the submission's jobs
-                  "implies(deserialize_jobs, J(result[0]) and nameset(val(result[0]._job_status).jobs) == ghost.universe)"],
+                  "implies(deserialize_jobs, J(result[0]) and nameset(val(result[0]._job_status).jobs) == ghost.universe)",
+                  "implies(deserialize_jobs, CLUSTER_READY(result[0]) and J_COUNTS(result[0]))"],
          raises={"Timeout": {"ensures": ["ghost.file_writes == old(ghost.file_writes)", "not ghost.cluster_lock"]}},
          modifies=["ghost.files", "ghost.vfiles", "ghost.file_writes", "Cluster.g_promoted", "Cluster._config", "Cluster._job_status", "Cluster._config_hash",
                    "Cluster._job_status_hash", "Cluster._hostname", "Cluster._config_file", "Cluster._job_status_file", "Cluster._config_version_file",
                    "Cluster._job_status_version_file", "ClusterConfig.submitter", "ClusterConfig.version", "ghost.loaded_complete"],
          note="classmethod: Cluster._deserialize under the cluster lock (json + pydantic load; _promote_to_submitter is verified and is what it calls when asked to promote)")
 contract("JobSubmitter.load", kind="assumed", fresh_result=True, params=[("output", "Opaque")], returns="Ref[JobSubmitter]",
-         ensures=["Inv_cfg(result._config)", "ghost.universe == nameset(result._config.g_joblist)", "not result._is_new", "result._output == output"],
+         ensures=["Inv_cfg(result._config)", "ghost.universe == nameset(result._config.g_joblist)", "not result._is_new", "result._output == output",
+                  "CONFIG_READY(result)"],
          modifies=["JobSubmitter._hpc", "JobSubmitter._is_new", "JobManagerBase._config", "JobManagerBase._config_file", "JobManagerBase._output",
                    "JobManagerBase._jobs_output", "JobManagerBase._results"],
          raises={"InvalidConfiguration": {}},
@@ -89,7 +91,10 @@ RS_KEEP = ("unchanged(Job.state) and unchanged(Job.blocked_by) and ghost.collect
 contract("resubmit_jobs", file=FRS,
          params=[("output", "Opaque"), ("failed", "bool"), ("missing", "bool"), ("successful", "bool"), ("submission_groups_file", "Opt[Opaque]"), ("verbose", "bool")],
          locals={"ret": "int", "jobs_to_resubmit": "Set[Name]", "updated_blocking_jobs_by_name": "Dict[Name,Set[Name]]", "groups": "List[Opaque]", "found": "bool"},
-         requires=["not ghost.cluster_lock", "forall(c, Cluster, not c.g_promoted)", "subset(ghost.collected, ghost.universe)"],
+         requires=["not ghost.cluster_lock", "forall(c, Cluster, not c.g_promoted)", "subset(ghost.collected, ghost.universe)",
+                   # scope: without --submission-groups-file.  With it the replaced groups are whatever the file holds (SubmissionGroup(**mapping)); the
+                   # group-parameter domain a submitter round needs is then not re-validated by the command, so nothing is claimed for that path
+                   "isnone(submission_groups_file)"],
          ensures=["False"],
          loops={1: {"invariant": ["Inv_handle(cluster) and cluster.g_promoted and not ghost.cluster_lock and cluster._config.is_complete", RS_KEEP,
                                   "J(cluster) and not isnone(cluster._job_status) and nameset(val(cluster._job_status).jobs) == ghost.universe",
